@@ -60,7 +60,7 @@ type c12Probe struct {
 	Debug bool // needs OptDebugger (breakpoints)
 }
 
-var c12Probes = []c12Probe{{"P1", false}, {"P2", false}, {"P3", false}, {"P4", false}, {"P5", false}, {"P6", true}}
+var c12Probes = []c12Probe{{"P1", false}, {"P2", false}, {"P3", false}, {"P4", false}, {"P5", false}, {"P6", true}, {"P7", false}, {"P8", false}}
 var c13Targets = []string{"L1", "L2", "L3", "L4", "L5", "L6", "L7", "L8"}
 
 const (
@@ -270,7 +270,7 @@ func init() {
 	register(&Prop{
 		ID:    "C12",
 		Level: "fault_enumeration",
-		Rule: "enumeration of (probe program, fault point): for each of 6 probe programs (nested calls and loops; defers that recover / modify named results / call deeper; closures; single-goroutine select; a program panic re-panicked by a deferred call; breakpoints under the debugger option) a panic is injected before EVERY executed statement k = 1..N (statement seam) and inside EVERY call of a compiled function j = 1..M, entered through Eval / Compile+RunExpr / ParseEvalPrint / DebugExpr with the debugger and trap-panic options varied; thorough adds all four entry paths per point and pairs (k, k+d), d = 1..12, where the second panic lands while the first is being handled. " +
+		Rule: "enumeration of (probe program, fault point): for each of 8 probe programs (nested calls and loops; defers that recover / modify named results / call deeper; closures; single-goroutine select; a program panic re-panicked by a deferred call; breakpoints under the debugger option; directly deferred compiled functions and builtins running while the function is already panicking) a panic is injected before EVERY executed statement k = 1..N (statement seam) and inside EVERY call of a compiled function j = 1..M, entered through Eval / Compile+RunExpr / ParseEvalPrint / DebugExpr with the debugger and trap-panic options varied; thorough adds all four entry paths per point and pairs (k, k+d), d = 1..12, where the second panic lands while the first is being handled. " +
 			"non-trivial = the injected panic fired; distinct = distinct (probe, kind, k, k2, entry, options)",
 		Runs:      func(tier string) int { return 0 },
 		Enumerate: c12Enumerate,
